@@ -71,7 +71,7 @@ class Matrix3(Matrix):
         # Make shapes and types consistent
         unit1 = Vector3.as_vector3(vector1).unit(recursive=recursive)
         vector2 = Vector3.as_vector3(vector2, recursive=recursive)
-        (unit1, vector2) = Qube.broadcast(unit1, vector2)
+        (unit1, vector2) = Qube.broadcast(unit1, vector2, _protected=False)
 
         # Denominators are disallowed
         if unit1._denom_ or vector2._denom_:
@@ -466,7 +466,7 @@ class Matrix3(Matrix):
         Units.require_angle(aj._units_)
         Units.require_angle(ak._units_)
 
-        (ai,aj,ak) = Qube.broadcast(ai,aj,ak)
+        (ai,aj,ak) = Qube.broadcast(ai,aj,ak, _protected=False)
 
         axes = axes.lower()
         try:
